@@ -39,19 +39,69 @@ CONST_POOL = ['LIMIT', 'SCALE']
 WRAP_POOL = ['pick', 'choose', 'twice', 'apply_it']
 ALIAS_POOL = ['hlp', 'cmpt', 'bld', 'mod_a', 'mod_b', 'lim']
 PARAM_POOL = ['x', 'val', 'num']
+#: parameters that call sites in OTHER modules pass by keyword (never skipped as start points)
+KWNAME_POOL = ['scale', 'bonus', 'times', 'weight']
+KW_KINDS = ['pk', 'kwonly-star', 'kwonly-args']
+CLASS_POOL = ['Maker', 'Shaper']
+CLASS_PARAM = 'amount'
+CLASS_ATTR = 'stock'
+CLASS_METHOD = 'produce'
 MAIN_PKG = 'run'
 FRESH = 'zz_new'
 #: every module-level identifier the generator emits is longer than this (references.py does not
 #: search other files for shorter names: documented limit); checked against the source by
 #: translator/gen_c05.py -> props/c05.py
 MIN_GLOBAL_NAME_LEN = min(len(n) for n in ROOT_POOL + PKG_POOL + SUB_POOL + FUNC_POOL + CONST_POOL
-                          + WRAP_POOL + ALIAS_POOL + [MAIN_PKG])
+                          + WRAP_POOL + ALIAS_POOL + [MAIN_PKG] + KWNAME_POOL + CLASS_POOL
+                          + [CLASS_PARAM, CLASS_ATTR, CLASS_METHOD])
 #: the largest number of files a generated project has (references.py parses at most
 #: _PARSED_FILE_LIMIT files per query)
 MAX_FILES = 12
 
 FEATURES = ['tie-try', 'tie-try-local', 'tie-if', 'alias', 'reexport', 'import-module', 'import-dotted',
-            'from-pkg-import-sub', 'relative', 'same-name-two-modules']
+            'from-pkg-import-sub', 'relative', 'same-name-two-modules',
+            'kw:pk', 'kw:kwonly-star', 'kw:kwonly-args', 'kw:class']
+
+
+def _kw_sig(spec, p, d):
+    """parameter list of a function with first parameter p whose name has the keyword spec"""
+    if not spec:
+        return p
+    kind, kw = spec['kind'], spec['kw']
+    if kind == 'pk':
+        return '%s, %s=%d' % (p, kw, d)
+    if kind == 'kwonly-star':
+        return '%s, *, %s=%d' % (p, kw, d)
+    if kind == 'kwonly-args':
+        return '%s, *rest, %s=%d' % (p, kw, d)
+    raise AssertionError(kind)
+
+
+def _call_t(rng, callee, fname, kwspec):
+    """call template ('%s' = the first argument) of the callable `fname` written as `callee`;
+    its keyword-capable parameter is passed by keyword"""
+    spec = (kwspec or {}).get(fname)
+    if not spec:
+        return callee + '(%s)'
+    if spec['kind'] == 'class':
+        first = rng.choice(['%d' % rng.randint(1, 5), '%s=%d' % (CLASS_PARAM, rng.randint(1, 5))])
+        init_kw = '' if rng.random() < 0.25 else ', %s=%d' % (spec['init_kw'], rng.randint(2, 9))
+        if spec['init_kind'] == 'kwonly-args' and init_kw and not first.startswith(CLASS_PARAM) and rng.random() < 0.5:
+            init_kw = ', %d%s' % (rng.randint(1, 5), init_kw)
+        meth_kw = ', %s=%d' % (spec['kw'], rng.randint(2, 9))
+        return '%s(%s%s).%s(%%s%s)' % (callee, first, init_kw, CLASS_METHOD, meth_kw)
+    if rng.random() < 0.2:
+        return callee + '(%s)'
+    if spec['kind'] == 'kwonly-args' and rng.random() < 0.5:
+        return '%s(%%s, %d, %s=%d)' % (callee, rng.randint(1, 5), spec['kw'], rng.randint(2, 9))
+    return '%s(%%s, %s=%d)' % (callee, spec['kw'], rng.randint(2, 9))
+
+
+def _without_keyword(expr, kw):
+    """`expr` with every `kw=<int>` argument (and the extra positional argument in front of it)
+    removed: inside a function that has a parameter `kw` itself no call passes `kw=` (a call keyword
+    spelled like a name of the calling scope is a finding of its own, stream kwparam)"""
+    return re.sub(r', (\d+, )?%s=\d+' % re.escape(kw), '', expr)
 
 
 class _Mod:
@@ -99,7 +149,7 @@ def _expr(rng, m, arg, depth=0, must=()):
     return out
 
 
-def _add_import(rng, m, target, plan, aliases):
+def _add_import(rng, m, target, plan, aliases, kwspec=None):
     """one import statement of module `m` from module `target`; returns the feature used"""
     forms = []
     names = sorted(target.funcs) + target.consts
@@ -146,7 +196,7 @@ def _add_import(rng, m, target, plan, aliases):
 
     def expose(prefix):
         for f in sorted(target.funcs):
-            m.calls.append(prefix + f + '(%s)')
+            m.calls.append(_call_t(rng, prefix + f, f, kwspec))
         for c in target.consts:
             m.values.append(prefix + c)
 
@@ -168,7 +218,7 @@ def _add_import(rng, m, target, plan, aliases):
                 m.consts.append(n)
         m.bound.add(bound)
         if n in target.funcs:
-            m.calls.append(bound + '(%s)')
+            m.calls.append(_call_t(rng, bound, n, kwspec))
         else:
             m.values.append(bound)
         return {'from-name': 'from-name', 'relative-name': 'relative', 'from-name-as': 'alias'}[form]
@@ -204,13 +254,13 @@ def _add_import(rng, m, target, plan, aliases):
     raise AssertionError(form)
 
 
-def _tie(rng, m, a, b, name, kind, wrappers):
+def _tie(rng, m, a, b, name, kind, wrappers, kwspec=None):
     """module m ties a.name and b.name together"""
     if kind == 'tie-try':
         m.imports += ['try:', '    from %s import %s' % (a.dotted, name), 'except ImportError:',
                       '    from %s import %s' % (b.dotted, name)]
         m.bound.add(name)
-        m.calls.append(name + '(%s)')
+        m.calls.append(_call_t(rng, name, name, kwspec))
         m.funcs[name] = True
     else:
         w = wrappers.pop() if wrappers else 'dispatch'
@@ -221,7 +271,7 @@ def _tie(rng, m, a, b, name, kind, wrappers):
         else:
             head = ['    try:', '        from %s import %s' % (a.dotted, name),
                     '    except ImportError:', '        from %s import %s' % (b.dotted, name)]
-        m.defs += ['def %s(%s):' % (w, p)] + head + ['    return %s(%s)' % (name, p), '', '']
+        m.defs += ['def %s(%s):' % (w, p)] + head + ['    return %s' % (_call_t(rng, name, name, kwspec) % p), '', '']
         m.bound.add(w)
         m.funcs[w] = True
         m.calls.append(w + '(%s)')
@@ -241,6 +291,23 @@ def gen_project(rng, plan=None):
     funcs = rng.sample(FUNC_POOL, 2)
     aliases = rng.sample(ALIAS_POOL, len(ALIAS_POOL))
     wrappers = rng.sample(WRAP_POOL, len(WRAP_POOL))
+    # which names take a second, keyword-capable parameter that call sites pass by keyword
+    kwspec = {}
+    kw_plan = plan.get('kw', 'random')
+    kwnames = rng.sample(KWNAME_POOL, 4)
+    for i, f in enumerate(funcs):
+        kind = kw_plan if i == 0 else 'random'
+        if kind == 'random':
+            kind = rng.choice(KW_KINDS + [None])
+        if kind in KW_KINDS:
+            kwspec[f] = {'kind': kind, 'kw': kwnames[i]}
+            features.add('kw:' + kind)
+    klass = None
+    if plan.get('klass', rng.random() < 0.4):
+        klass = rng.choice(CLASS_POOL)
+        kwspec[klass] = {'kind': 'class', 'init_kind': rng.choice(KW_KINDS), 'init_kw': kwnames[2],
+                         'meth_kind': rng.choice(KW_KINDS), 'kw': kwnames[3]}
+        features.add('kw:class')
     n_low = rng.randint(2, len(roots) - 1)
     low = [_Mod(r + '.py', 0) for r in roots[:n_low]]
     submods = [_Mod('%s/%s.py' % (pkg, s), 1) for s in subs]
@@ -257,10 +324,25 @@ def gen_project(rng, plan=None):
             mine.append(funcs[1])
         for f in mine:
             p = rng.choice(PARAM_POOL)
-            m.defs += ['def %s(%s):' % (f, p), '    return %s * %d + %d' % (p, _const(rng), _const(rng) + 10 * i), '', '']
+            body = '%s * %d + %d' % (p, _const(rng), _const(rng) + 10 * i)
+            if f in kwspec:
+                body += ' + %s' % kwspec[f]['kw'] + (' + len(rest)' if kwspec[f]['kind'] == 'kwonly-args' else '')
+            m.defs += ['def %s(%s):' % (f, _kw_sig(kwspec.get(f), p, _const(rng))), '    return %s' % body, '', '']
             m.funcs[f] = True
             m.bound.add(f)
-            m.calls.append(f + '(%s)')
+            m.calls.append(_call_t(rng, f, f, kwspec))
+        if klass and i == n_low - 1:
+            sp = kwspec[klass]
+            m.defs += ['class %s:' % klass,
+                       '    def __init__(self, %s):' % _kw_sig({'kind': sp['init_kind'], 'kw': sp['init_kw']}, CLASS_PARAM, _const(rng)),
+                       '        self.%s = %s + %s' % (CLASS_ATTR, CLASS_PARAM, sp['init_kw']), '',
+                       '    def %s(self, %s):' % (CLASS_METHOD, _kw_sig({'kind': sp['meth_kind'], 'kw': sp['kw']}, rng.choice(PARAM_POOL), _const(rng))),
+                       None, '', '']
+            mp = m.defs[-4].split('(self, ')[1].split(',')[0]
+            m.defs[m.defs.index(None)] = '        return self.%s + %s * %s' % (CLASS_ATTR, mp, sp['kw'])
+            m.funcs[klass] = True
+            m.bound.add(klass)
+            m.calls.append(_call_t(rng, klass, klass, kwspec))
         if rng.random() < 0.5:
             c = rng.choice(CONST_POOL)
             m.defs += ['%s = %d' % (c, _const(rng) + 20 * i), '']
@@ -284,10 +366,10 @@ def gen_project(rng, plan=None):
             a, b = low[0], low[1]
             if rng.random() < 0.5:
                 a, b = b, a
-            _tie(rng, m, a, b, funcs[0], tie, wrappers)
+            _tie(rng, m, a, b, funcs[0], tie, wrappers, kwspec)
             if tie == 'tie-try':
                 # the tied name is used below the try statement (own definition / main's print)
-                must.append(funcs[0] + '(%s)')
+                must.append(_call_t(rng, funcs[0], funcs[0], kwspec))
             features.add(tie)
         if m is side_mod and funcs[0] not in m.bound and ('src', funcs[0]) not in m.bound:
             src = rng.choice(low[:2])
@@ -295,20 +377,20 @@ def gen_project(rng, plan=None):
                 m.imports.append('from %s import %s' % (src.dotted, funcs[0]))
                 m.bound.add(funcs[0])
                 m.funcs[funcs[0]] = True
-                m.calls.append(funcs[0] + '(%s)')
-                must.append(funcs[0] + '(%s)')
+                m.calls.append(_call_t(rng, funcs[0], funcs[0], kwspec))
+                must.append(_call_t(rng, funcs[0], funcs[0], kwspec))
             elif src.dotted not in m.bound:
                 m.imports.append('import %s' % src.dotted)
                 m.bound.add(src.dotted)
-                m.calls.append('%s.%s(%%s)' % (src.dotted, funcs[0]))
-                must.append('%s.%s(%%s)' % (src.dotted, funcs[0]))
+                m.calls.append(_call_t(rng, '%s.%s' % (src.dotted, funcs[0]), funcs[0], kwspec))
+                must.append(_call_t(rng, '%s.%s' % (src.dotted, funcs[0]), funcs[0], kwspec))
         k = rng.randint(1, 3) if m.layer != 2 else rng.randint(0, 1)
         cands = list(lower)
         rng.shuffle(cands)
         for target in cands[:k]:
             if m.layer == 2 and target.layer != 1:
                 continue
-            f = _add_import(rng, m, target, plan if rng.random() < 0.5 else {}, aliases)
+            f = _add_import(rng, m, target, plan if rng.random() < 0.5 else {}, aliases, kwspec)
             if f:
                 features.add(f)
                 if f == 'from-name' and target.layer >= 1 and any(
@@ -322,11 +404,14 @@ def gen_project(rng, plan=None):
                 if f in wrappers:
                     wrappers.remove(f)
                 p = rng.choice(PARAM_POOL)
-                m.defs += ['def %s(%s):' % (f, p), '    return %s' % _expr(rng, m, p, must=must), '', '']
+                body = _expr(rng, m, p, must=must)
+                if f in kwspec:
+                    body = '%s + %s' % (_without_keyword(body, kwspec[f]['kw']), kwspec[f]['kw'])
+                m.defs += ['def %s(%s):' % (f, _kw_sig(kwspec.get(f), p, _const(rng))), '    return %s' % body, '', '']
                 must = []
                 m.funcs[f] = True
                 m.bound.add(f)
-                m.calls.append(f + '(%s)')
+                m.calls.append(_call_t(rng, f, f, kwspec))
         if must and m is not main:
             m.defs += ['CHECKED = %s' % (must[0] % str(rng.randint(1, 5))), '']
 
@@ -360,7 +445,7 @@ def gen_project(rng, plan=None):
 
 # ---------------------------------------------------------------------------- pure helpers
 
-_SKIP = {'print', 'ImportError', 'self'}
+_SKIP = {'print', 'ImportError', 'self', 'len'}       # not defined by the project: never a start
 
 
 def occurrences(files):
@@ -524,10 +609,36 @@ def _tied_without_use(files, name):
     return False
 
 
+def _params_and_keywords(files, name):
+    """(files that have a def/lambda with a parameter `name`, {rel: {(line, col)}} of the call
+    keywords `name=`)"""
+    import ast
+    defs, kws = set(), {}
+    for rel, code in files.items():
+        if name not in code:
+            continue
+        for n in ast.walk(ast.parse(code)):
+            if isinstance(n, (ast.FunctionDef, ast.AsyncFunctionDef, ast.Lambda)):
+                a = n.args
+                if any(x is not None and x.arg == name
+                       for x in a.posonlyargs + a.args + a.kwonlyargs + [a.vararg, a.kwarg]):
+                    defs.add(rel)
+            elif isinstance(n, ast.Call):
+                for k in n.keywords:
+                    if k.arg == name:
+                        kws.setdefault(rel, set()).add((k.lineno, k.col_offset))
+    return defs, kws
+
+
 def shape_of(files, rel, line, col, name):
     """syntactic class of the start occurrence (what known findings are matched by); decided on
     the project text and the cursor only, never on what jedi answered"""
     code = files[rel]
+    if name in KWNAME_POOL or name == CLASS_PARAM:
+        defs, kws = _params_and_keywords(files, name)
+        if any(d != k for d in defs for k in kws):
+            # a parameter of this spelling is declared in one module and passed by keyword in another
+            return 'parameter-passed-by-keyword-in-another-module'
     if name in _alias_spellings(code):
         # the identifier under the cursor is bound by `... as <name>` in this file
         return 'start-is-import-alias'
@@ -542,4 +653,4 @@ def shape_of(files, rel, line, col, name):
 
 def is_local_spelling(name):
     """parameters: looked up in their own module only; the single-module streams cover them"""
-    return name in PARAM_POOL
+    return name in PARAM_POOL or name == 'rest'
